@@ -42,13 +42,18 @@ func (c01) Phases(env run.Env) []run.Phase {
 
 func (c01) Run(c *run.Ctx, phase, idx int) {
 	a, part := c01Corpus(c.Env).Get(c.Env, idx)
-	roundTrip(c, "C01", a, part)
+	roundTrip(c, "C01", a, part, rng(c.Env, "C01build", phase, idx))
 }
 
 // roundTrip is the C01 oracle; it is shared with the race-build sweep.
-func roundTrip(c *run.Ctx, id string, a *ref.Packet, part string) {
+func roundTrip(c *run.Ctx, id string, a *ref.Packet, part string, r *gen.RNG) {
 	T := tname(int(a.Type))
-	pkt, err := bind.Build(a)
+	if r.Chance(1, 4) {
+		noise(r)
+		c.Count("history", "noise-before-build", 1)
+	}
+	pkt, err, how := buildMaybeStaged(r, a)
+	c.Count("history", "build-"+how, 1)
 	if err != nil {
 		if errors.Is(err, bind.ErrNoSetter) {
 			c.Count("skipped", "no-setter/"+T, 1)
